@@ -365,6 +365,8 @@ def hitmiss(input, Bc, out=None, output=None):
     '''
     _verify_is_integer_type(input, 'hitmiss')
     _verify_is_integer_type(Bc, 'hitmiss')
+    if input.ndim != Bc.ndim:
+        raise ValueError('mahotas.hitmiss: `input` and `Bc` must have the same number of dimensions')
     if input.dtype != Bc.dtype:
         if input.dtype == np.bool_:
             input = input.view(np.uint8)
@@ -528,6 +530,7 @@ def majority_filter(img, N=3, out=None, output=None):
         boolean image of same size as img.
     '''
     img = np.asanyarray(img, dtype=np.bool_)
+    _check_2(img, 'majority_filter')
     output = _get_output(img, out, 'majority_filter', np.bool_, output=output)
     if N <= 1:
         raise ValueError('mahotas.majority_filter: filter size must be positive')
